@@ -10,7 +10,7 @@ PROP = "C03"
 
 
 def items(tier: str) -> Any:
-    return (it for it in detspaces.detector_spaces(tier) if it[1] == "direct")
+    return (it for it in detspaces.detector_spaces(tier) if it[1] in ("direct", "g1a"))
 
 
 def worker_init() -> None:
@@ -20,7 +20,14 @@ def worker_init() -> None:
 def worker(item: Any, res: runner.Result) -> None:
     from mc import sem, detect, harness  # pylint: disable=import-outside-toplevel
 
-    focus, _, src = item
+    focus, mode, src = item
+    if mode == "g1a":
+        from mc.asm import tokenize  # pylint: disable=import-outside-toplevel
+        from mc.refcfg import RefGraph  # pylint: disable=import-outside-toplevel
+
+        if not RefGraph(tokenize(src)).entered_only_through_callsub():
+            res.count("filtered_bodies_not_entered_only_through_callsub")
+            return
     try:
         case = sem.Case(src, explore=False)
     except BaseException as e:  # pylint: disable=broad-except
